@@ -1,6 +1,7 @@
 """C15 — comments are transparent; annotations stick to the next option."""
 from hypothesis import strategies as st
 
+import c06  # noqa: F401  (registers the 'c06' hand-built schema)
 import gen_text
 from execclient import Script, hx, by_index
 from langbatch import run_subs, unhex_diag
@@ -127,7 +128,7 @@ class C15:
                 tree = dump_to_plain(rs["dump"]["tree"])
                 if strip_comments(tree) != base_tree:
                     sig, msg = "values-changed", "comment %r inserted before %r changed the values\n  text %r" % (form, tk, sub["text"])
-                elif (flags & F_COMMENTS) and not at_item and lost_annotation(base_full, tree):
+                elif (flags & F_COMMENTS) and exp["accept"] and not at_item and lost_annotation(base_full, tree):
                     sig, msg = "annotation-replaced-by-inner-comment", "comment %r inserted inside an item (before %r): %s\n  text %r" % (
                         form, tk, lost_annotation(base_full, tree), sub["text"])
                 elif (flags & F_COMMENTS) and at_item and body.kind == "COMMENT":
